@@ -491,8 +491,11 @@ def _geq(rng, hi):
     elif what == 'swapdir':
         h['U'][0], h['U'][1] = h['U'][1], h['U'][0]
         h['S'][0], h['S'][1] = h['S'][1], h['S'][0]
+    # channel dimensions are not part of the geometry: operands with different channel layouts
+    # (multi-channel Volume vs geometry / single-channel / other channel count) must compare the same
     return {'kind': kind, 'g': g, 'h': h, 'tol': tol, 'what': what,
-            'kinds': [rng.choice(['geometry', 'volume']), rng.choice(['geometry', 'volume'])]}
+            'kinds': [rng.choice(['geometry', 'volume']), rng.choice(['geometry', 'volume'])],
+            'chs': [rng.choice([0, 0, 2, 3]), rng.choice([0, 0, 1, 2])]}
 
 
 def _exact_index(g, h, pt):
@@ -659,8 +662,9 @@ def run_impl(c):
     import highdicom as hd
     k = c['kind']
     if k.startswith('geq'):
-        a = build(c['g'], c['kinds'][0])
-        b = build(c['h'], c['kinds'][1])
+        chs = c.get('chs', [0, 0])
+        a = build(c['g'], c['kinds'][0], chs[0])
+        b = build(c['h'], c['kinds'][1], chs[1])
         if c['tol'] == 'default':
             return bool(a.geometry_equal(b))
         tol = None if c['tol'] == 'none' else float(F(c['tol']))
